@@ -15,10 +15,16 @@ CHECKS = {
     "C07": ("scenario runs; structural invariants and seed provenance at every boundary / sprouting round", "3/C07", "structural invariants + seed provenance against population snapshots (Hypothesis)"),
     "C08": ("scenario runs with small level limits; census at every GSC consultation and around every round", "3/C08", "invariant at every timeline entry of generated histories (Hypothesis)"),
     "C09": ("scenario runs with distance filters; centroids and thresholds recomputed by the observer", "3/C09", "recomputed centroids / reference NBC threshold vs accepted seeds (Hypothesis)"),
+    "C10": ("scenario runs with observed generator/filter chains + direct calls of generators and filters on the reached tree with generated candidate sets", "3/C10", "set-valued reference specification of each sprout component on observed and generated calls (Hypothesis)"),
     "C11": ("scenario runs with >=2 generations per metaepoch; call-log segments joined with histories; engine proxy", "3/C11", "call-log segment join + engine pass-through proxy on generated runs (Hypothesis)"),
     "C12": ("scenario runs; monotone / dominance / size invariants over all consecutive generation pairs", "3/C12", "monotonicity and dominance invariants over generated histories (Hypothesis)"),
+    "C13": ("twin calls of every comparison-based component and twin seeded runs on (f,max) / (-f,min)", "3/C13", "metamorphic relation (f,maximize) vs (-f,minimize) on generated decisions and whole runs (Hypothesis)"),
+    "C14": ("scenario re-runs after scrambling the global generators, and in fresh interpreters with other PYTHONHASHSEED values", "3/C14", "differential on tree digests: re-run / fresh interpreters / hash seeds (Hypothesis + subprocess)"),
+    "C15": ("generated populations (uniform/clustered/collinear/tied/converged) vs an O(n^2) reference and metamorphic re-runs", "3/C15", "independent O(n^2) reference model + metamorphic relations (permutation, translation, scaling, mirroring) (Hypothesis)"),
+    "C16": ("rule-based state machine over wrapper stacks and call sequences vs a reference model; all 341 stack shapes enumerated", "3/C16", "model-based stateful testing (Hypothesis RuleBasedStateMachine) + exhaustive stack-shape enumeration"),
     "C17": ("constructed vectors around generated boxes vs an exact rational reference; exhaustive adversarial grid", "3/C17", "exact rational reference model + validity predicate on constructed inputs (Hypothesis + enumerated grid)"),
     "C18": ("scenario runs with hibernation; automaton model fed by observed sprouting rounds; per-step progress", "3/C18", "reference automaton vs flags + per-step progress safety property (Hypothesis)"),
+    "C19": ("scenario x snapshot point: dump/load round trip, live tree and RNG untouched, continued runs of both trees under the C03/C04/C07/C08 monitors", "3/C19", "round-trip oracle on digests/summaries/RNG state + invariant monitors on the continued loaded tree (Hypothesis)"),
     "C20": ("scenario runs; parsed reports vs attributes at every boundary; accessor purity; blind re-run differential", "3/C20", "parsed-report oracle + purity differential (looked-at run vs blind run) (Hypothesis)"),
 }
 
